@@ -94,11 +94,25 @@ def judge_events(events, marker, root):
         elif kind in ("marshal.loads", "ctypes.dlopen", "os.putenv"):
             bad.append((kind, str(ev[1:])[:160]))
         else:
-            if kind in ("os.remove", "os.rename", "os.mkdir", "os.rmdir", "os.chmod", "os.chown", "os.truncate",
-                        "os.symlink", "os.link", "os.utime") and len(ev) > 1 and os.path.abspath(ev[1]) == log:
-                continue
+            if kind in ("os.remove", "os.chmod", "os.chown", "os.truncate", "os.utime") and len(ev) > 1 and os.path.abspath(ev[1]) == log:
+                continue    # (a rename, link or symlink names a second path: never tolerated)
             bad.append((kind, str(ev[1:])[:160]))
     return bad
+
+
+LOG_NEIGHBOURS = ("fortls_debug.old.log", "fortls_debug.log.1", "fortls_debug.log.bak", "fortls_debug.log~", "fortls_debug.txt")
+
+
+def earlier_session(root, site):
+    """The workspace was opened before with the debug log on: the log exists and is not empty; files of the user with
+    similar names lie next to it (only the log itself may be touched)."""
+    if not (site["config"] or {}).get("debug_log") and "--debug_log" not in site["argv"]:
+        return
+    with open(os.path.join(root, "fortls_debug.log"), "w") as f:
+        f.write("DEBUG:fortls:log of an earlier session\n")
+    for n in LOG_NEIGHBOURS:
+        with open(os.path.join(root, n), "w") as f:
+            f.write("a file of the user: " + n + "\n")
 
 
 def tree_hash(path, skip=("fortls_debug.log",)):
@@ -233,6 +247,7 @@ def run_case(job, acc: Acc):
         with open(os.path.join(root, ".fortlsrc"), "w") as f:
             json.dump(site["config"], f)
     doc = os.path.join(root, docrel)
+    earlier_session(root, site)
     before = (tree_hash(root), tree_hash(canary))
     cwd = os.getcwd()
     os.chdir(root)
@@ -349,6 +364,7 @@ def subprocess_case(job, acc: Acc):
         cfg.pop("nthreads", None)
         with open(os.path.join(root, ".fortlsrc"), "w") as f:
             json.dump(cfg, f)
+    earlier_session(root, site)
     before = (tree_hash(root), tree_hash(canary))
     from fortls.jsonrpc import path_to_uri
 
